@@ -9,3 +9,4 @@ pub mod glyf;
 pub mod type2;
 pub mod sfnt_validate;
 pub mod otl_gsub;
+pub mod varext;
